@@ -297,6 +297,9 @@ type Runner struct {
 	OnEvent func(ev Event)
 
 	tableCache map[int64][]leveldb.VerifEntry
+	Tracer     *lsmTracer
+	snapMu     sync.Mutex
+	snapSeqs   map[*leveldb.Snapshot]uint64
 	// transcript of every read result (for cross-configuration comparison)
 	Transcript []string
 }
@@ -305,6 +308,7 @@ type ProgChecks struct {
 	Structure bool // C06 after every op
 	Files     bool // C07 at settled points
 	Space     bool
+	Trace     bool // emit `lsm …` lines for the Lean trace validator
 }
 
 func NewRunner(p *Prog) *Runner {
@@ -460,6 +464,9 @@ func (r *Runner) releaseHandles() {
 		h.it.Release()
 	}
 	r.Held = nil
+	r.snapMu.Lock()
+	r.snapSeqs = nil
+	r.snapMu.Unlock()
 	for _, sn := range r.Snaps {
 		sn.s.Release()
 	}
@@ -560,6 +567,9 @@ func (r *Runner) Run() {
 			kk := cp(k)
 			v, err := r.DB.Get(kk, nil)
 			r.checkGet(at, "get", k, v, err, r.M)
+			if r.Tracer != nil && r.Tr == nil && at%3 == 0 && (err == nil || err == leveldb.ErrNotFound) {
+				r.Tracer.get(k, v, err)
+			}
 			if r.P.Poison {
 				poison(kk)
 				poison(v)
@@ -584,6 +594,12 @@ func (r *Runner) Run() {
 					r.fail("snap:error", err.Error(), at)
 					break
 				}
+				r.snapMu.Lock()
+				if r.snapSeqs == nil {
+					r.snapSeqs = map[*leveldb.Snapshot]uint64{}
+				}
+				r.snapSeqs[s] = leveldb.VerifSnapshotSeq(s)
+				r.snapMu.Unlock()
 				r.Snaps = append(r.Snaps, struct {
 					s *leveldb.Snapshot
 					m kvmap
@@ -603,6 +619,9 @@ func (r *Runner) Run() {
 		case "snaprel":
 			if len(r.Snaps) > 0 {
 				i := op.Snap % len(r.Snaps)
+				r.snapMu.Lock()
+				delete(r.snapSeqs, r.Snaps[i].s)
+				r.snapMu.Unlock()
 				r.Snaps[i].s.Release()
 				if _, err := r.Snaps[i].s.Get([]byte("x"), nil); err != leveldb.ErrSnapshotReleased {
 					r.fail("snaprel:not-released", fmt.Sprintf("op %d: Get on a released snapshot: %v", at, err), at)
@@ -670,6 +689,9 @@ func (r *Runner) Run() {
 			if r.St.IsLocked() {
 				r.fail("close:still-locked", "storage lock not released by Close", at)
 			}
+			if r.Tracer != nil {
+				r.Tracer.reset()
+			}
 			if err := r.open(); err != nil {
 				r.fail("reopen:error", fmt.Sprintf("op %d: reopen: %v", at, err), at)
 				return
@@ -735,6 +757,9 @@ func (r *Runner) Run() {
 				mutating = true
 			}
 		}
+		if r.Tracer != nil {
+			r.Tracer.drain()
+		}
 		if mutating && r.P.Settle && r.Tr == nil {
 			if err := leveldb.VerifWaitIdle(r.DB); err != nil {
 				r.fail("settle:error", fmt.Sprintf("op %d: background error %v", at, err), at)
@@ -746,6 +771,9 @@ func (r *Runner) Run() {
 	}
 	if !r.Failed {
 		r.fullCompare(len(r.P.Ops), "final")
+	}
+	if r.Tracer != nil {
+		r.Tracer.drain()
 	}
 }
 
